@@ -86,6 +86,12 @@ def gen_error(rng):
 def gen_case(rng):
     n = rng.choice([0, 1, 1, 2, 2, 3, 5])
     errs = [gen_error(rng) for _ in range(n)]
+    if rng.random() < 0.03:
+        # a long list of rpc-errors (a commit check over a large configuration): warnings, with the only error - if any - far down the list
+        n = rng.choice([51, 64, 150])
+        errs = [[['error-severity', 'warning'], ['error-message', 'w%d' % i]] for i in range(n)]
+        if rng.random() < 0.7:
+            errs[min(n - 1, rng.choice([n - 1, n - 2, 50, n // 2 + 26]))] = [['error-severity', 'error'], ['error-message', 'the one that matters'], ['error-tag', 'operation-failed']]
     r = rng.random()
     pats = [] if r < 0.45 else rng.sample(PATS, rng.randint(1, 3))
     msgs = [dict(e).get('error-message') for e in errs if dict(e).get('error-message')]
@@ -93,7 +99,7 @@ def gen_case(rng):
         pats = pats[:rng.randint(0, 1)] + [derived_pat(rng, rng.choice(msgs)) for _ in range(rng.randint(1, 2))]
     profile = 'nexus' if rng.random() < 0.15 else 'default'
     case = {'errs': errs, 'ok_too': rng.random() < 0.07, 'mode': rng.choice([0, 1, 2]), 'pats': pats, 'profile': profile,
-            'nested': rng.random() < 0.05, 'prefixed': rng.random() < 0.25,
+            'nested': rng.random() < 0.05, 'prefixed': rng.random() < 0.25, 'ok_nested': rng.choice([None] * 14 + ['before', 'after']),
             'op': rng.choice(['get_config'] * 4 + ['get', 'discard_changes', 'close_session', 'kill_session', 'lock', 'commit'])}
     if rng.random() < 0.06:
         # the mode and the exempt list travel from the connect parameters (errors_params) through the public connect_uds entry point
@@ -112,6 +118,10 @@ def reply_xml(case, mid):
         body += '<rpc-error>%s</rpc-error>' % inner
     if case.get('nested') and body:
         body = '<data>%s</data>' % body
+    if case.get('ok_nested'):
+        # an <ok/> that is NOT a child of <rpc-reply> (inside a results wrapper, as Junos nests it) says nothing about the reply's errors
+        wrap = '<load-configuration-results><ok/></load-configuration-results>'
+        body = (wrap + body) if case['ok_nested'] == 'before' else (body + wrap)
     doc = '<rpc-reply message-id="%s" xmlns="%s">%s%s</rpc-reply>' % (mid, BASE_NS, '<ok/>' if case['ok_too'] else '', body)
     if case.get('prefixed'):
         # the same document with the base namespace bound to a prefix; the content of error-info keeps its own (absent) namespace
